@@ -279,6 +279,22 @@ def rand_spec(rng, maxruns=4, maxlen=4, alphabet="abc", empty_runs=True, palette
     return spec
 
 
+def twin(spec, rng):
+    """A value that renders exactly like `spec` but has other run boundaries: an unformatted
+    run of two or more characters split in two (or two adjacent unformatted runs merged).
+    Returns None when the spec has no such run."""
+    idx = [i for i, (t, a) in enumerate(spec) if not a and len(t) >= 2]
+    if idx:
+        i = rng.choice(idx)
+        t = spec[i][0]
+        k = rng.randint(1, len(t) - 1)
+        return spec[:i] + [[t[:k], {}], [t[k:], {}]] + spec[i + 1:]
+    for i in range(len(spec) - 1):
+        if not spec[i][1] and not spec[i + 1][1] and spec[i][0] and spec[i + 1][0]:
+            return spec[:i] + [[spec[i][0] + spec[i + 1][0], {}]] + spec[i + 2:]
+    return None
+
+
 def layouts(max_runs, max_len, min_len=0):
     """All run-length tuples; run i gets palette entry i+1 and fresh letters, so that each
     character is unique in the string and carries its run's formatting."""
